@@ -255,13 +255,27 @@ def w_keyring_init() -> Part:
                     d.sequence_number = 3
                     kr.devices.append(d)
                 sender_known = senders_from in ("interface", "devices", "both")
-                for name, apdu in PLAIN_APDUS.items():
+                for name, apdu, previous in [(n_, a_, pv) for n_, a_ in PLAIN_APDUS.items() for pv in ("first-init", "after-another-keyring", "after-init-without-keyring")]:
                     xknx = XKNX()
                     xknx.current_address = IndividualAddress(0x1105)
                     issues: list[Any] = []
                     xknx.telegram_queue.register_data_secure_group_key_issue_cb(issues.append)
-                    case = {"kind": "keyring-init", "keys": n_keys, "senders_from": senders_from, "apdu": name}
+                    case = {"kind": "keyring-init", "keys": n_keys, "senders_from": senders_from, "apdu": name, "previous": previous}
                     try:
+                        # an earlier session on the same XKNX object (stop() / start() with another project): what was learnt then must not survive
+                        if previous == "after-another-keyring":
+                            old = Keyring()
+                            g0 = XMLGroupAddress()
+                            g0.address = GroupAddress(0x0999)
+                            g0.decrypted_key = bytes(16)
+                            old.group_addresses.append(g0)
+                            d0 = XMLDevice()
+                            d0.individual_address = IndividualAddress(0x1177)
+                            d0.sequence_number = 9
+                            old.devices.append(d0)
+                            xknx.cemi_handler.data_secure_init(old)
+                        elif previous == "after-init-without-keyring":
+                            xknx.cemi_handler.data_secure_init(None)
                         xknx.cemi_handler.data_secure_init(kr)
                     except Exception as exc:  # noqa: BLE001
                         part.viol(exc_sig("data-secure-init-raises", exc), f"{case}: {exc!r}", case)
@@ -318,6 +332,86 @@ def w_keyring_init() -> Part:
     return part
 
 
+def w_during_start() -> Part:
+    """The real XKNX.start() with a Data Secure keyring over a TCP tunnel whose gateway sends bus frames together with its
+    ConnectResponse: frames handled while start() is still running are judged like any other."""
+    import logging
+
+    from xknx import XKNX
+    from xknx.io import ConnectionConfig, ConnectionType, SecureConfig
+    from xknx.knxip import ConnectionStateRequest, ConnectionStateResponse, ConnectRequest, DisconnectRequest, DisconnectResponse, TunnellingRequest
+    from xknx.secure.keyring import Keyring, XMLDevice, XMLGroupAddress
+    from xknx.telegram import IndividualAddress
+
+    from ..sim.gateway import GW_ADDR, Gateway
+    from ..vloop import World, texc
+
+    logging.disable(logging.CRITICAL)
+    part = Part()
+    for name, apdu in PLAIN_APDUS.items():
+        for second_session in (False, True):
+            with World() as w:
+                loop = w.loop
+                gw = Gateway(loop)
+                st = {"chan": 6}
+
+                def handler(body: Any, apdu: bytes = apdu) -> None:
+                    if isinstance(body, ConnectRequest):
+                        st["chan"] += 1
+                        gw.send(gw.connect_response(st["chan"], tcp=True))
+                        gw.send(TunnellingRequest(st["chan"], 0, plain_frame(SENDER, KEYED, apdu)))     # arrives in the same read
+                        gw.send(TunnellingRequest(st["chan"], 1, plain_frame(SENDER, UNKEYED, apdu)))
+                    elif isinstance(body, ConnectionStateRequest):
+                        gw.send(ConnectionStateResponse(body.communication_channel_id))
+                    elif isinstance(body, DisconnectRequest):
+                        gw.send(DisconnectResponse(body.communication_channel_id))
+
+                gw.handler = handler
+                kr = Keyring()
+                g = XMLGroupAddress()
+                g.address = GroupAddress(KEYED)
+                g.decrypted_key = KEY
+                kr.group_addresses.append(g)
+                d = XMLDevice()
+                d.individual_address = IndividualAddress(SENDER)
+                d.sequence_number = 3
+                kr.devices.append(d)
+                xknx = XKNX(connection_config=ConnectionConfig(connection_type=ConnectionType.TUNNELING_TCP, gateway_ip=GW_ADDR[0], gateway_port=GW_ADDR[1], secure_config=SecureConfig(keyring=kr)))
+                seen: list[Any] = []
+                issues: list[Any] = []
+                xknx.telegram_queue.register_telegram_received_cb(seen.append)
+                xknx.telegram_queue.register_data_secure_group_key_issue_cb(issues.append)
+                case = {"kind": "during-start", "apdu": name, "second_session": second_session}
+                try:
+                    sessions = 2 if second_session else 1
+                    for k in range(sessions):
+                        t = w.spawn(xknx.start(), name="harness-start")
+                        loop.run_until(loop.time() + 2)
+                        if not t.done() or texc(t) is not None:
+                            part.viol("harness:start-failed", f"{case}: {t!r}", case)
+                            break
+                        if k + 1 < sessions:
+                            t = w.spawn(xknx.stop(), name="harness-stop")
+                            loop.run_until(loop.time() + 2)
+                            seen.clear()
+                            issues.clear()
+                    part.evaluations += 1
+                    part.nontrivial += 1
+                    keyed = [tg for tg in seen if tg.destination_address == GroupAddress(KEYED)]
+                    plain = [tg for tg in seen if tg.destination_address == GroupAddress(UNKEYED)]
+                    if keyed:
+                        part.viol("plain-frame-delivered-to-secured-group:during-start", f"{case}: a plain frame to the keyed group address that arrived with the ConnectResponse reached the telegram callbacks: {keyed}", case)
+                    elif len(issues) != 1:
+                        part.viol("plain-frame-to-secured-group-not-reported:during-start", f"{case}: key-issue callbacks={len(issues)}", case)
+                    if len(plain) != 1:
+                        part.viol("plain-frame-to-plain-group-not-delivered:during-start", f"{case}: {plain}", case)
+                    t = w.spawn(xknx.stop(), name="harness-stop")
+                    loop.run_until(loop.time() + 2)
+                finally:
+                    xknx.started.clear()
+    return part
+
+
 def run(ctx: Ctx) -> None:
     ctx.rule = (
         "real CEMIHandler with DataSecure: plain GroupValueWrite(6-bit/array)/Read/Response frames to a keyed and an unkeyed group; secured frames (reference-built) to keyed/unkeyed groups and from an "
@@ -331,11 +425,15 @@ def run(ctx: Ctx) -> None:
     ctx.pmap(w_outgoing, [()])
     ctx.pmap(w_keyring_init, [()])
     ctx.pmap(w_scf, [(c, c + 16) for c in range(0, 256, 16)])
+    ctx.pmap(w_during_start, [()])
 
 
 def replay(case: Any) -> list[tuple[str, str]]:
     if case.get("kind") == "keyring-init":
         p = w_keyring_init()
+        return [(sg, v[1]) for sg, v in p.viols.items()]
+    if case.get("kind") == "during-start":
+        p = w_during_start()
         return [(sg, v[1]) for sg, v in p.viols.items()]
     if case.get("kind") == "scf":
         orig = Management.process
